@@ -39,8 +39,8 @@ hmax-generic, mask_store-fallback* / mask_store-prefix-fallback, lanes16-mask_*,
 
 Not decided here (and why):
   * rcp / rsqrt relative-error bounds: need non-linear floating-point reasoning -- left out.
-  * product(): a product of all lanes is multilinear of degree Size: not SYM (symbolic multipliers), not ATOMS (A*A products),
-    UF would fix one association order that the property does not prescribe -- left out.
+  * product(): multilinear of degree one in each lane -> TAGS/BASIS pair (hproduct below), a proof for all lane values and any
+    association order for vectors of up to 9 lanes; the 16-lane vectors (int/float avx512, fixed16) exceed the tag budget -- left out.
   * float/double sum()/dot() are proved as "each lane (product) exactly once" in the ring reinterpretation; the rounding of the
     particular summation order is not checked.
   * integer division: symbolic SAT dividers do not terminate (tried: every form timed out at 300 s) -- left out.
@@ -55,7 +55,7 @@ from units.common import *
 
 LEVEL_NOTE = ('per instantiation (element type, vector ABI, operation, ISA flags): lane i of the result equals the scalar operation '
               'on lane i of the operands for all lane values (SYM: full domain; UF: every interpretation of the float operations; '
-              'ATOMS: polynomial identity), masked forms with frame clauses; rcp/rsqrt error bounds, product(), integer division '
+              'ATOMS: polynomial identity), masked forms with frame clauses; rcp/rsqrt error bounds, 16-lane product(), integer division '
               'and complex vectors are not decided (see module docstring); instantiations are enumerated')
 
 L64 = Ty('int64', 'int64_t', 64, 'int')      # Fastor's Int64 (int64_t = long on this target; vf.I64 is long long)
@@ -149,6 +149,21 @@ def horizontal(fam, vt, cfg, expr, spec=None, nin=1, mode='SYM', atoms=None, bsp
     if requires:
         for l in lanes: req += [requires(x) for x in l]
     return mk(fam, vt, cfg, body, bufs + [o], ens, mode, requires=req)
+
+def hproduct(vt, cfg):
+    """o[0] = va.product() == a_0 * a_1 * ... * a_n-1.  One lane: exact (SYM).  2..9 lanes: the fold is multilinear in the n
+    lanes (degree one in each), so the TAGS/BASIS pair of vf.multilinear_cases proves it for all lane values, in any association
+    order (floats in the ring reinterpretation: every lane exactly once, rounding not judged).  16-lane vectors exceed the tag
+    budget (9 operands): not generated, listed as not decided."""
+    n = vt.n; ty = vt.ty
+    if n > 9: return []
+    a = Buf('a', ty, n, 'in', atoms=('TR', 1, 0) if n >= 2 else None)
+    o = Buf('o', ty, 1, 'out')
+    body = '    V va(a,false);\n    o[0] = va.product();'
+    r = E.inp(a, 0)
+    for i in range(1, n): r = r * E.inp(a, i)
+    c = mk('product', vt, cfg, body, [a, o], [(o, 0, r)])
+    return [c] if n == 1 else multilinear_cases(c)
 
 def bit(m, i):
     return E.arg(m).bitand(E.const(1 << i, UINT)).cmp('ne', E.const(0, UINT))
@@ -314,6 +329,7 @@ def int_ops(vt, P1, full, rng):
     out += compares(vt, P1, full, rng)
     out.append(horizontal('sum', vt, P1, 'va.sum()', lambda a: E.total(a, ty)))
     out.append(horizontal('dot', vt, P1, 'va.dot(vb)', lambda a, b: E.total([x * y for x, y in zip(a, b)], ty), nin=2, mode='ATOMS', atoms='AB'))
+    out += hproduct(vt, P1)
     # minimum()/maximum(): result is a lane and bounds all lanes (integer versions are seeded with 0: candidate defect, own family)
     suffix = '' if vt.abi == 'scalar' else '-int'
     out.append(horizontal('hmin' + suffix, vt, P1, 'va.minimum()', bspec=lambda p, a: [('minimum() is one of the lanes', any_of([p.same(x) for x in a])), ('minimum() <= every lane', all_of([p.cmp('le', x) for x in a]))]))
@@ -375,6 +391,7 @@ def float_ops(vt, P1, P0, full, rng):
     # horizontal: each lane exactly once (ring reinterpretation)
     out.append(horizontal('sum', vt, P1, 'va.sum()', lambda a: E.total(a, ty), mode='ATOMS', atoms='LIN'))
     out.append(horizontal('dot', vt, P1, 'va.dot(vb)', lambda a, b: E.total([x * y for x, y in zip(a, b)], ty), nin=2, mode='ATOMS', atoms='AB'))
+    out += hproduct(vt, P1)
     if not (vt.spec and vt.abi == 'avx512'):     # SIMDVector<float|double,avx512> has no minimum()/maximum()
         suffix = '-generic' if vt.generic else ''
         out.append(horizontal('hmin' + suffix, vt, P1, 'va.minimum()', requires=no_nan,
@@ -416,9 +433,9 @@ def all_families(vt, P1, P0, full, rng):
 
 # quick tier, ABIs narrower than the native one: only the families whose code path changes with the ISA flags (SSSE3/SSE4.1 abs,
 # min/max, mullo, dpps; FMA; AVX-512VL masks, abs/min/max on 64-bit integers)
-ISA_SENSITIVE = re.compile(r'^(mask|abs$|min-vv|max-vv|mul-vv|dot|sum|fm|fnm|neg|hmin|hmax|load-store$|reverse)')
+ISA_SENSITIVE = re.compile(r'^(mask|abs$|min-vv|max-vv|mul-vv|dot|sum|product|fm|fnm|neg|hmin|hmax|load-store$|reverse)')
 # quick tier, scalar ABI and second generic instantiations: a fixed sample of families
-SAMPLE = re.compile(r'^(load-store$|bcast-ctor|setN|reverse|add-vv|mul-vv|neg|abs$|min-vv|cmp-lt$|sum|dot|hmin|hmax|mask_load$|mask_store|shift|cast)')
+SAMPLE = re.compile(r'^(load-store$|bcast-ctor|setN|reverse|add-vv|mul-vv|neg|abs$|min-vv|cmp-lt$|sum|product|dot|hmin|hmax|mask_load$|mask_store|shift|cast)')
 NATIVE = {'scalar': 'scalar', 'sse2': 'sse', 'sse4.2': 'sse', 'avx': 'avx', 'avx2': 'avx', 'avx512': 'avx512'}
 
 def vts(isa, thorough):
@@ -556,7 +573,7 @@ def cases(tier, seed):
     return res
 
 def evidence_extra(tier):
-    return {'not_decided': ['rcp/rsqrt relative error bounds', 'product()', 'integer division', 'complex SIMD vectors',
+    return {'not_decided': ['rcp/rsqrt relative error bounds', 'product() of 16-lane vectors', 'integer division', 'complex SIMD vectors',
                             'rounding of float sum()/dot() (proved: each lane / product exactly once)']}
 
 # ---- supporting static fact: no integer lane access through incompatible pointer casts ------------------------------
